@@ -229,3 +229,15 @@ v("c17-reaching-uses-descendants", {"C17"}, (SDG, "ancestor_sccs = set(nx.ancest
 v("c17-reachable-excludes-own-scc", {"C17"}, (SDG, "reachable_sccs = set(nx.descendants(C, cv)) | {cv}", "reachable_sccs = set(nx.descendants(C, cv))", 1))
 v("benign-dp-renamed", B, (SDAG, "            for node in self.topological_order_rev:\n                for v in self.successors(node):\n                    self._reachable_nodes_from[node] |= self._reachable_nodes_from[v]",
                            "            for x in self.topological_order_rev:\n                for succ in self.successors(x):\n                    self._reachable_nodes_from[x] |= self._reachable_nodes_from[succ]", 1))
+# --- C19.R4 conservation validator body
+GU = "flowpaths/utils/graphutils.py"
+v("c19-conservation-extra-exemption", {"C19"}, (GU, "        if G.out_degree(v) == 0 or G.in_degree(v) == 0:\n            continue\n\n        out_flow = 0", "        if G.out_degree(v) <= 1 or G.in_degree(v) == 0:\n            continue\n\n        out_flow = 0", 1))
+v("c19-conservation-one-sided", {"C19"}, (GU, "        if out_flow != in_flow:\n            return False", "        if out_flow > in_flow:\n            return False", 1))
+v("c19-conservation-early-accept", {"C19"}, (GU, "        if out_flow != in_flow:\n            return False\n\n    return True", "        if out_flow != in_flow:\n            return False\n        return True\n\n    return True", 1))
+v("benign-conservation-renamed", B, (GU, "        if out_flow != in_flow:\n            return False", "        if in_flow != out_flow:\n            return False", 1))
+# --- C17.R5 / C02.R8 peeling
+v("c17-peel-skips-last-edge", {"C17", "C02"}, (SDAG, "            for i in range(len(path) - 1):\n                temp_G[path[i]][path[i + 1]][flow_attr] -= bottleneck", "            for i in range(len(path) - 2):\n                temp_G[path[i]][path[i + 1]][flow_attr] -= bottleneck", 1))
+v("c17-peel-max-instead-of-min", {"C17", "C02"}, (GU, "uBottleneck = min(B[u], G.edges[u, v][flow_attr])", "uBottleneck = max(B[u], G.edges[u, v][flow_attr])", 1))
+v("c17-peel-predecessor-outside-update", {"C17", "C02"}, (GU, "                if uBottleneck > B[v]:\n                    B[v] = uBottleneck\n                    maxInNeighbor[v] = u", "                if uBottleneck > B[v]:\n                    B[v] = uBottleneck\n                maxInNeighbor[v] = u", 1))
+v("c17-peel-on-self", {"C17", "C02"}, (SDAG, "            bottleneck, path = graphutils.max_bottleneck_path(temp_G, flow_attr)", "            bottleneck, path = graphutils.max_bottleneck_path(self, flow_attr)", 1))
+v("benign-peel-renamed", B, (SDAG, "            for i in range(len(path) - 1):\n                temp_G[path[i]][path[i + 1]][flow_attr] -= bottleneck", "            for pos in range(0, len(path) - 1):\n                temp_G[path[pos]][path[pos + 1]][flow_attr] -= bottleneck", 1))
